@@ -1449,7 +1449,12 @@ class ArgumentParser(ParserDeprecations, ActionsContainer, ArgumentLinking, argp
             subparser.validate(value, _prefix=key + ".")
         elif isinstance(action, _ActionConfigLoad):
             if isinstance(value, str):
-                value = action.check_type(value, self)
+                parser = self
+                if key != action.dest and key.endswith("." + action.dest):
+                    # action of a subcommand: its parser is the one that knows the keys inside the loaded config
+                    for name in split_key(key[: -len(action.dest) - 1]):
+                        parser = parser._subcommands_action._name_parser_map[name]  # type: ignore[union-attr]
+                value = action.check_type(value, parser)
         elif hasattr(action, "_check_type"):
             if cfg and key != action.dest and key.endswith("." + action.dest):
                 # action of a subcommand: previous values are the ones inside the subcommand's settings
